@@ -32,6 +32,8 @@ pub enum PMsg {
     SelfExecute(u64),
     SelfClose(u64),
     SelfVote(u64, Vote),
+    /// the multisig, as the admin of its own group, changes the membership (self-governed worlds only)
+    GroupUpd { add: Vec<(String, u64)>, remove: Vec<String> },
     /// the multisig proposes to itself (it has to be a member of its own group), attaching nothing
     SelfPropose,
     /// pay the DEPOSIT token out of the multisig's own account (C15 worlds only)
@@ -143,6 +145,8 @@ pub struct World {
     pub ping_ctr: u64,
     pub hist: u64,
     pub stranger: String,
+    /// flex: the multisig is the admin of its own group; membership changes only through executed proposals
+    pub self_governed: bool,
 }
 
 pub struct Override {
@@ -289,6 +293,11 @@ impl World {
             PMsg::SelfExecute(id) => wasm_exec(&self.ms, &cw3_fixed_multisig::msg::ExecuteMsg::Execute { proposal_id: *id }, vec![]),
             PMsg::SelfClose(id) => wasm_exec(&self.ms, &cw3_fixed_multisig::msg::ExecuteMsg::Close { proposal_id: *id }, vec![]),
             PMsg::SelfVote(id, v) => wasm_exec(&self.ms, &cw3_fixed_multisig::msg::ExecuteMsg::Vote { proposal_id: *id, vote: *v }, vec![]),
+            PMsg::GroupUpd { add, remove } => wasm_exec(
+                self.group.as_ref().unwrap_or(&self.sink),
+                &cw4_group::msg::ExecuteMsg::UpdateMembers { add: add.iter().map(|(a, x)| cw4::Member { addr: a.clone(), weight: *x }).collect(), remove: remove.clone() },
+                vec![],
+            ),
             PMsg::SelfPropose => wasm_exec(
                 &self.ms,
                 &cw3_fixed_multisig::msg::ExecuteMsg::Propose { title: "follow-up".into(), description: "proposed by the multisig itself".into(), msgs: vec![], latest: None },
@@ -462,6 +471,14 @@ impl Ms {
             let v = h.rng.pick(&voters).clone();
             voters.push(v);
         }
+        if kind == Kind::Fixed && !hostile && over.is_none() && matches!(self.prop, "C06" | "C03") && h.rng.chance(1, 5) {
+            // a voter list longer than one listing page: further voters who never vote
+            let extra = h.rng.range(8, 30);
+            for i in 0..extra {
+                voters.push((mk_addr(&format!("member-{i:02}")), 1 + h.rng.below(3)));
+            }
+            h.out.count("fixed_worlds_with_more_than_ten_voters");
+        }
         let total: u128 = voters.iter().map(|v| v.1 as u128).sum();
         if total > u64::MAX as u128 {
             h.out.count("instantiate_attempts_with_total_beyond_u64");
@@ -500,6 +517,7 @@ impl Ms {
             ping_ctr: 0,
             hist: h.idx,
             stranger,
+            self_governed: false,
         };
         match kind {
             Kind::Fixed => {
@@ -678,6 +696,15 @@ impl Ms {
                     let r = w.c.exec(&gadmin, &g, &cw4_group::msg::ExecuteMsg::AddHook { addr: w.ms.to_string() }, &[]);
                     if r.is_ok() {
                         h.out.count("flex_worlds_where_the_multisig_listens_to_its_group");
+                    }
+                }
+                if over.is_none() && !hostile && (h.idx % 8 == 7 || h.idx % 16 == 5) {
+                    // the usual deployment: the multisig governs the very group it votes with. The old admin is a
+                    // stranger from now on, membership changes only through executed proposals
+                    let r = w.c.exec(&gadmin, &g, &cw4_group::msg::ExecuteMsg::UpdateAdmin { admin: Some(w.ms.to_string()) }, &[]);
+                    if r.is_ok() {
+                        w.self_governed = true;
+                        h.out.count("flex_worlds_governing_their_own_group");
                     }
                 }
                 // cw20 deposit: everybody pre-approves the multisig generously (changed later by SetAllowance)
@@ -865,6 +892,11 @@ impl Ms {
                     let d = remove[0].clone();
                     remove.push(d); // the same member named twice
                 }
+                if w.self_governed && nprops < 9 && rng.chance(5, 6) {
+                    // only the multisig may change its group: propose the change
+                    let funds = if matches!(w.dep, Some(Dep { token: DepTok::Native(_), .. })) { Funds::Right } else { Funds::None };
+                    return (member_or_any(rng), Op::Propose { msgs: vec![PMsg::GroupUpd { add, remove }], latest: None, funds });
+                }
                 let sender = if rng.chance(9, 10) { w.gadmin.clone() } else { any_actor(rng) };
                 (sender, Op::GroupUpdate { add, remove })
             }
@@ -896,6 +928,9 @@ impl Ms {
         let dep_pre: BTreeMap<String, u128> = watch.iter().map(|a| (a.clone(), w.dep_balance(a))).collect();
         let sink_pre = w.c.sink_count(&w.sink);
         let executed_before: Vec<bool> = w.props.iter().map(|m| m.executed).collect();
+        // authority is judged on the membership as it was when the call arrived (an executed proposal may change it)
+        let auth_on_arrival = w.authorised_executor(sender);
+        let ms_auth_on_arrival = w.authorised_executor(w.ms.as_str());
 
         let r: Res<AppResponse> = match op {
             Op::Propose { msgs, latest, funds } => {
@@ -1162,6 +1197,36 @@ impl Ms {
         for id in &newly {
             w.props[*id as usize - 1].executed = true;
         }
+        // membership changes carried by the proposals executed in this step, in the order they ran
+        if let Some(first) = newly.first().cloned() {
+            fn walk(w: &World, id: u64, newly: &[u64], seen: &mut Vec<u64>, out: &mut Vec<(Vec<(String, u64)>, Vec<String>)>) {
+                if seen.contains(&id) || seen.len() > 16 {
+                    return;
+                }
+                seen.push(id);
+                for m in &w.props[id as usize - 1].msgs {
+                    match m {
+                        PMsg::GroupUpd { add, remove } => out.push((add.clone(), remove.clone())),
+                        PMsg::SelfExecute(q) if newly.contains(q) => walk(w, *q, newly, seen, out),
+                        _ => {}
+                    }
+                }
+            }
+            let mut ups = vec![];
+            walk(w, first, &newly, &mut vec![], &mut ups);
+            for (add, remove) in ups {
+                for (a, x) in &add {
+                    w.gmodel.entry(a.clone()).or_default().set(hgt, Some(*x));
+                }
+                for a in &remove {
+                    if w.group_weight_now(a).is_some() {
+                        w.gmodel.entry(a.clone()).or_default().set(hgt, None);
+                    }
+                }
+                w.gchange_heights.insert(hgt);
+                h.out.count("group_updates_by_the_multisig_itself");
+            }
+        }
         // anything that turned Executed without being in that set
         let mut rogue: Vec<u64> = vec![];
         for (i, o) in post.iter().enumerate() {
@@ -1310,7 +1375,7 @@ impl Ms {
         // ================= Execute / Close admission (C03 + C05) =================
         if let (Op::Execute { id }, Some(o)) = (op, target_pre) {
             let m_executed = executed_before.get(*id as usize - 1).cloned().unwrap_or(false);
-            let auth = w.authorised_executor(sender);
+            let auth = auth_on_arrival;
             let benign = w.props[*id as usize - 1].msgs.iter().all(|m| match m {
                 PMsg::Ping { .. } => !w.sink_failing,
                 PMsg::Bank { .. } => true,
@@ -1339,7 +1404,8 @@ impl Ms {
                     if newly.len() > 1 {
                         h.out.count("nested_executions_judged_for_executor_authority");
                         let ms_addr = w.ms.to_string();
-                        if !h.check(w.authorised_executor(&ms_addr), &format!("C05/{kind:?}/execute/unauthorised-executor-admitted"), || {
+                        let _ = &ms_addr;
+                        if !h.check(ms_auth_on_arrival, &format!("C05/{kind:?}/execute/unauthorised-executor-admitted"), || {
                             format!("proposals {:?} were executed by nested Execute calls sent by the multisig itself; executor setting {:?}", &newly[1..], w.executor)
                         }) {
                             return false;
@@ -2250,7 +2316,10 @@ impl Monitor for Ms {
             ],
             "C06" => vec![
                 "flex_worlds_with_more_than_ten_group_members",
+                "fixed_worlds_with_more_than_ten_voters",
                 "flex_worlds_where_the_multisig_listens_to_its_group",
+                "flex_worlds_governing_their_own_group",
+                "group_updates_by_the_multisig_itself",
                 "point_queries_compared_with_listings",
                 "directed_scenarios_completed",
                 "histories_fixed",
